@@ -2,6 +2,10 @@ import Afkak.Monitor.C06
 import AfkakProofs.BrokerClient.Frame
 import AfkakProofs.BrokerClient.SimC06
 import AfkakProofs.BrokerClient.MonC06
+import AfkakProofs.BrokerClient.Route
+import AfkakProofs.BrokerClient.Boot
+import AfkakProofs.BrokerClient.BootSingle
+import AfkakProps.Open.C06
 /-!
 # C06 — each request completes exactly once, with the response bearing its own id
 Property theorems only; helper lemmas live in `AfkakProofs/BrokerClient/`.
@@ -172,6 +176,95 @@ theorem C06_oversize (fs : List Bytes) (hf : ∀ f ∈ fs, f.length < 2 ^ 31) (a
   simp only [List.nil_append, hc, hp] at h1 h2
   exact ⟨h1, h2⟩
 
+
+/-- A reply reaches the request it answers: the routing monitor (a frame that is the first one
+    carrying the id of a request written on the current connection, and that echoes that request's
+    serial, fires that request or nobody — never a request made later with the same id) accepts
+    every trace of the model.  This is what the tombstone of a cancelled request and the
+    duplicate-id check are for. -/
+theorem C06_answered_request (cfg : Cfg) (host port : Nat) (evs : List Ev) :
+    routesOk (trace cfg (St.init host port) evs) = true := by
+  simp only [routesOk]
+  rw [routes_run cfg evs _ _ 0 (sinv_init host port) (rinv_init host port)]
+  rfl
+
+/-- Bootstrap connection, any number of requests, any event list: every request Deferred fires
+    exactly once — with the packet carrying its id, by its own cancel, or with the connection-lost
+    reason — and an over-long prefix drops the connection (the non-strict bootstrap monitor). -/
+theorem C06_bootstrap_monitor_sound (evs : List Bootstrap.Ev) :
+    bootAccepts false (Bootstrap.trace Bootstrap.St.init evs) = true := by
+  simp only [bootAccepts]
+  rw [← Bootstrap.absB_init, Bootstrap.simB_run _ evs Bootstrap.binv_init]
+  rfl
+
+/-- Single-request use of a bootstrap connection (what `KafkaClient` does): if the first packet of
+    the broker's byte stream is a legal frame carrying the request's correlation id, the request
+    fires exactly once, with exactly that packet — however the stream is cut and whatever follows
+    (duplicates, unsolicited packets that make the protocol drop the connection, over-long
+    prefixes). -/
+theorem C06_bootstrap_single (p f1 rest : Bytes) (chunks : List Bytes) (hf : f1.length < 2 ^ 31)
+    (hcid : Bootstrap.respCid f1 = Bootstrap.reqCid p) (hc : chunks.flatten = encode f1 ++ rest) :
+    Bootstrap.firesOf (Bootstrap.trace Bootstrap.St.init (.request p :: chunks.map .bytesIn)) = [(0, .ok f1)] := by
+  have hle : f1.length ≤ Afkak.Consts.kafkaMaxLength := by
+    have : (2:Nat) ^ 31 - 1 ≤ Afkak.Consts.kafkaMaxLength := by decide
+    omega
+  have hstep : Bootstrap.step Bootstrap.St.init (.request p) =
+      ({ Bootstrap.St.init with nreq := 1, pending := some [⟨Bootstrap.reqCid p, 0, false⟩] }, [.write 0]) := by
+    simp [Bootstrap.step, Bootstrap.St.init]
+  simp only [Bootstrap.trace, Bootstrap.firesOf, List.flatMap_cons, hstep]
+  have := Bootstrap.bootstrap_single_core (Bootstrap.reqCid p) f1 rest hle hcid chunks
+    { Bootstrap.St.init with nreq := 1, pending := some [⟨Bootstrap.reqCid p, 0, false⟩] } rfl rfl (by simp [Bootstrap.St.init]; omega)
+    (by simpa [Bootstrap.St.init] using hc)
+  simp only [Bootstrap.firesOf] at this
+  simp [bootFires, this]
+
+/-- The code violates the full-strength bootstrap statement (`Open/C06.lean`): two requests pending,
+    the reply to the first and then a packet with an id nobody asked for — the protocol drops the
+    connection and the second request is lost with it. -/
+theorem C06_bootstrap_no_crosstalk_counterexample : ¬ Open.C06_bootstrap_no_crosstalk := by
+  intro h
+  have := h [.request [0, 3, 0, 0, 0, 0, 0, 2], .request [0, 3, 0, 0, 0, 0, 0, 3],
+             .bytesIn [0, 0, 0, 5, 0, 0, 0, 2, 0x44, 0, 0, 0, 2, 0, 1], .lost]
+  revert this
+  decide
+
+/-- The part of it that holds: as long as the protocol itself never drops the connection
+    (`lose` is never observed — no packet with an unknown id, no over-long prefix), the strict
+    monitor accepts: nothing but its own packet, its own cancel or the loss of the connection decides a
+    request's outcome. -/
+theorem C06_bootstrap_no_crosstalk_partial (evs : List Bootstrap.Ev)
+    (hq : (Bootstrap.trace Bootstrap.St.init evs).all (fun t => !t.2.contains .lose) = true) :
+    bootAccepts true (Bootstrap.trace Bootstrap.St.init evs) = true := by
+  have hs := C06_bootstrap_monitor_sound evs
+  simp only [bootAccepts] at hs ⊢
+  generalize Bootstrap.trace Bootstrap.St.init evs = tr at hs hq
+  generalize BSt.init = m at hs
+  induction tr generalizing m with
+  | nil => rfl
+  | cons t ts ih =>
+    simp only [List.all_cons, Bool.and_eq_true] at hq
+    simp only [brun] at hs ⊢
+    have hstep : bstep true m t = bstep false m t := by
+      obtain ⟨e, os⟩ := t
+      have hnl : os.count .lose = 0 := by
+        rw [List.count_eq_zero]
+        intro hm
+        have := hq.1
+        simp only [Bool.not_eq_eq_eq_not, Bool.not_true] at this
+        rw [← List.contains_iff_mem, this] at hm
+        exact Bool.false_ne_true hm
+      cases e <;> simp [bstep, hnl]
+    rw [hstep]
+    cases hb : bstep false m t with
+    | none => simp [hb] at hs
+    | some m' =>
+      simp only [hb] at hs ⊢
+      exact ih hq.2 m' hs
+
+example : (Bootstrap.trace Bootstrap.St.init [.request [0, 3, 0, 0, 0, 0, 0, 2], .bytesIn [0, 0, 0, 5, 0, 0, 0, 2, 0x44]]).all
+    (fun t => !t.2.contains .lose) = true := by decide
+example : Bootstrap.respCid [0, 0, 0, 2, 0x44] = Bootstrap.reqCid [0, 3, 0, 0, 0, 0, 0, 2] := by decide
+
 /-! Non-vacuity: a run in which Deferreds do fire — one by its own response (delivered in two
 chunks, after an unsolicited frame), one by cancel, one by close — and a late response to the
 cancelled request fires nothing. -/
@@ -203,6 +296,12 @@ C06_own_response
 C06_no_crosstalk
 C06_reassembly
 C06_oversize
+C06_answered_request
+C06_bootstrap_monitor_sound
+C06_bootstrap_single
+C06_bootstrap_no_crosstalk_counterexample
+C06_bootstrap_no_crosstalk_partial
 -/
 /- OPEN_STATEMENTS
+C06_bootstrap_no_crosstalk
 -/
